@@ -215,7 +215,7 @@ type vfC09Out struct {
 
 // vfC09Guard bounds a Handle call: no scenario of this file may legitimately block longer than a
 // few tens of milliseconds; a limiter that imposes an hour-long wait must not hang the check.
-const vfC09Guard = 20 * time.Second
+const vfC09Guard = 5 * time.Second
 
 func vfC09Handle(f *RateLimiter, method, path string) vfC09Out {
 	gctx, cancel := stdcontext.WithTimeout(stdcontext.Background(), vfC09Guard)
